@@ -307,9 +307,18 @@ def do_validate(p):
         keep.add("enabled")
     before = tree_of(proc, keep)
     values = p.get("values") or [[{"t": "int", "v": "1"}, {"t": "int", "v": "2"}] for _ in p["keys"]]
-    steps = [ParameterValues(key=k, values=[decode(x) for x in vs], enabled=en)
-             for k, vs, en in zip(p["keys"], values, p["step_enabled"])]
-    obs = Observation(parameters=steps, readout=Readout(times=[1.0]), mode=p.get("mode", "product"))
+    if p.get("mode") == "custom":
+        # the values of every enabled step come from the columns of a table file, one run per row
+        cols = [[decode(x) for x in vs] for vs, en in zip(values, p["step_enabled"]) if en]
+        with open("custom_c08.txt", "w") as f:
+            for row in zip(*cols):
+                f.write("\t".join(repr(float(x)) for x in row) + "\n")
+        steps = [ParameterValues(key=k, values="_", enabled=en) for k, en in zip(p["keys"], p["step_enabled"])]
+        obs = Observation(parameters=steps, readout=Readout(times=[1.0]), mode="custom", from_file="custom_c08.txt")
+    else:
+        steps = [ParameterValues(key=k, values=[decode(x) for x in vs], enabled=en)
+                 for k, vs, en in zip(p["keys"], values, p["step_enabled"])]
+        obs = Observation(parameters=steps, readout=Readout(times=[1.0]), mode=p.get("mode", "product"))
     res = None
     try:
         obs.validate_steps(proc)
